@@ -114,6 +114,9 @@ type Rig struct {
 	Repo  *repository.Repositories
 	Svc   *service.Services
 	Store *sql.HeadersDb
+	// InitErr is what database.Init answered when the rig was reopened with Prepared (the file
+	// was then opened plainly so that the caller can still look at it).
+	InitErr error
 }
 
 // RigOpts tune how a rig is opened.
@@ -127,6 +130,10 @@ type RigOpts struct {
 	Cfg func(*config.AppConfig)
 	// ReInit runs database.Init on the file (restart path) instead of a plain open.
 	ReInit bool
+	// Prepared (with ReInit): restart with db.prepared_db = true, the standing configuration of an
+	// installation that was set up from a prepared file. The table already holds headers, so the
+	// import must be skipped before the file is even looked at (the path names no file).
+	Prepared bool
 	// Trace opens the file through the statement-recording driver (see sqltrace.go).
 	Trace bool
 }
@@ -159,7 +166,15 @@ func OpenRig(path string, o RigOpts) *Rig {
 	}
 	var db *sqlx.DB
 	var err error
-	if o.ReInit {
+	var initErr error
+	if o.ReInit && o.Prepared {
+		cfg.Db.PreparedDb = true
+		cfg.Db.PreparedDbFilePath = "verif-no-such-prepared-file.csv.gz"
+		if db, err = database.Init(cfg, Quiet()); err != nil {
+			initErr = err
+			db, err = sqlx.Open("sqlite3", fmt.Sprintf("file:%s?_foreign_keys=true&pooling=true", path))
+		}
+	} else if o.ReInit {
 		db, err = database.Init(cfg, Quiet())
 	} else {
 		dsn := fmt.Sprintf("file:%s?_foreign_keys=true&pooling=true", path)
@@ -196,7 +211,7 @@ func OpenRig(path string, o RigOpts) *Rig {
 		Logger:       Quiet(),
 		Config:       cfg,
 	})
-	return &Rig{Path: path, Cfg: cfg, DB: db, Repo: repo, Svc: svc, Store: hdb}
+	return &Rig{Path: path, Cfg: cfg, DB: db, Repo: repo, Svc: svc, Store: hdb, InitErr: initErr}
 }
 
 // NewRig = fresh template copy + OpenRig.
